@@ -217,12 +217,15 @@ def _summarise(mod, prop, tier, seed, results, findings, t0, replay):
     os.makedirs(os.path.join(VERIF_DIR, "replays", prop), exist_ok=True)
     seen_mech = collections.Counter()
     for rec in viol_recs:
-        v = dict(rec.get("viol") or {})
-        v.setdefault("property", prop)
-        fid = classify(v, findings)
-        if fid:
-            known[fid] += 1
+        # a case may carry several violations ("viols"); it is known only if every one of them is a known finding
+        vlist = [dict(x) for x in (rec.get("viols") or [rec.get("viol") or {}])]
+        fids = [classify(dict(x, property=prop), findings) for x in vlist]
+        if all(fids):
+            for fid in set(fids):
+                known[fid] += 1
             continue
+        v = dict(vlist[fids.index(None)])
+        v.setdefault("property", prop)
         mech = v.get("mechanism", "unclassified") + "|" + str(rec.get("cell"))
         unknown.append(rec)
         seen_mech[mech] += 1
@@ -241,7 +244,7 @@ def _summarise(mod, prop, tier, seed, results, findings, t0, replay):
         with open(os.path.join(VERIF_DIR, ".work", "viol_%s.jsonl" % prop), "w") as f:
             for rec in viol_recs:
                 rr = {k: v for k, v in rec.items() if k != "_spec"}
-                rr["known"] = classify(dict(rec.get("viol") or {}), findings)
+                rr["known"] = [classify(dict(x), findings) for x in (rec.get("viols") or [rec.get("viol") or {}])]
                 f.write(jdump(rr) + "\n")
     for mech, cnt in seen_mech.items():
         lines.append("#   %d x %s" % (cnt, mech))
